@@ -25,7 +25,7 @@ func CreateSavepointArtifact(fs locations.StorageLocation, savepointsPath string
 		}
 
 		// Get a list of URIs that the checkpoint references.
-		files, err := recovery.ListFiles(bytes.NewBuffer(checkpointsData))
+		files, err := recovery.ListCheckpointFiles(bytes.NewBuffer(checkpointsData), opCkpt.CheckpointId)
 		if err != nil {
 			return "", err
 		}
@@ -72,7 +72,7 @@ func RestoreCheckpointFromSavepointArtifact(fs locations.StorageLocation, savepo
 		}
 
 		// Get a list of referenced files to copy into place
-		files, err := recovery.ListFiles(bytes.NewBuffer(cpData))
+		files, err := recovery.ListCheckpointFiles(bytes.NewBuffer(cpData), opCkpt.CheckpointId)
 		if err != nil {
 			return err
 		}
